@@ -50,6 +50,13 @@ CHECKS["C11"] = dict(
     ref="DESIGN.md 5 C11",
 )
 
+CHECKS["C17"] = dict(
+    text="Seeded edit histories (appendMedium / deleteMedium / item assignment and deletion / mediaText assignment with duplicates, 'all', comments and one malformed query / restart through the owner rule) on media lists that are stand-alone, owned by an @media rule or owned by an @import rule, in lock step with an ordered-set reference model; after every step the text must reparse to an equal list, count / indexing / iteration must agree, and the canonical-form rules ('all' absorbs, a simple type once, empty means 'all') must hold.",
+    note="Media types are lower-case where set semantics are judged; the surviving spelling of a moved type, and appending to the empty list, are observed rather than predicted. Sampling, not proof.",
+    technique="deterministic simulation: seeded operation histories in lock step with an ordered-set reference model plus restart (serialise/reparse) steps",
+    ref="DESIGN.md 5 C17",
+)
+
 PENDING = {'C01': "check not built yet in this round (claimed by DESIGN.md section 2; will move to 'checks' when its simulation world exists)", 'C03': "check not built yet in this round (claimed by DESIGN.md section 2; will move to 'checks' when its simulation world exists)", 'C08': "check not built yet in this round (claimed by DESIGN.md section 2; will move to 'checks' when its simulation world exists)", 'C09': "check not built yet in this round (claimed by DESIGN.md section 2; will move to 'checks' when its simulation world exists)", 'C10': "check not built yet in this round (claimed by DESIGN.md section 2; will move to 'checks' when its simulation world exists)", 'C11': "check not built yet in this round (claimed by DESIGN.md section 2; will move to 'checks' when its simulation world exists)", 'C12': "check not built yet in this round (claimed by DESIGN.md section 2; will move to 'checks' when its simulation world exists)", 'C14': "check not built yet in this round (claimed by DESIGN.md section 2; will move to 'checks' when its simulation world exists)", 'C15': "check not built yet in this round (claimed by DESIGN.md section 2; will move to 'checks' when its simulation world exists)", 'C16': "check not built yet in this round (claimed by DESIGN.md section 2; will move to 'checks' when its simulation world exists)", 'C17': "check not built yet in this round (claimed by DESIGN.md section 2; will move to 'checks' when its simulation world exists)", 'C19': "check not built yet in this round (claimed by DESIGN.md section 2; will move to 'checks' when its simulation world exists)"}
 
 
